@@ -22,6 +22,8 @@ return:返回装载状态
 loadstate_t iobuffer::load_buffer(FILE *fin, bool ispadding)
 {
   u32_t load = fread(b, 1, sum, fin);
+  if (load == sum)
+    ungetc(fgetc(fin), fin); // peek: a full chunk may be the last one, EOF shows only on the next read
   bool readover = feof(fin);
   tail = load & 0xf;
   total = load >> 4;
